@@ -20,14 +20,18 @@
 (* "Verified" implies every requested statement is true of the attributes    *)
 (* and nothing deviates.                                                     *)
 (*                                                                           *)
-(* Attribute values: tag 0 is a string, tag 8 a number (u64).  Values are     *)
-(* indices into StrVals / NumVals, listed in the order of their field         *)
-(* elements.                                                                  *)
+(* Attribute values: tag 0 is a string, tag 8 a number (u64), tag 3 a point   *)
+(* in time.  Values are indices into StrVals / NumVals / TimeVals, listed in  *)
+(* the order of their field elements (times: chronological - the conversion   *)
+(* of a date-time to its field element must preserve the order, from the      *)
+(* earliest to the latest representable instant).                             *)
 (***************************************************************************)
 EXTENDS Naturals, Sequences, FiniteSets, TLC, Json
 
 StrVals == <<"", "a", "b", "ab", "zz">>
 NumVals == <<"0", "1", "5", "9", "10", "255", "4294967295", "4294967296", "18446744073709551614", "18446744073709551615">>
+TimeVals == <<"MIN", "0000-01-01T00:00:00Z", "1969-12-31T23:59:59.999Z", "1970-01-01T00:00:00Z", "2023-08-28T23:12:15Z", "2023-08-28T23:12:15.001Z", "9999-12-31T23:59:59Z", "MAX">>
+NT == Len(TimeVals)
 NS == Len(StrVals)
 NN == Len(NumVals)
 
@@ -38,8 +42,10 @@ AtomTrue(a, attrs) ==
     [] a.k = "not_in_set" -> attrs[a.tag] \notin a.set
 StmtTrue(s, attrs) == \A i \in 1..Len(s) : AtomTrue(s[i], attrs)
 
-AttrChoices == { [t \in {0, 8} |-> IF t = 0 THEN 2 ELSE 4], [t \in {0, 8} |-> IF t = 0 THEN 4 ELSE NN], [t \in {0, 8} |-> IF t = 0 THEN 1 ELSE 1] }
-DefaultAttrs == [t \in {0, 8} |-> IF t = 0 THEN 2 ELSE 4]
+Tags == {0, 3, 8}
+AttrOf(a0, a3, a8) == [t \in Tags |-> IF t = 0 THEN a0 ELSE IF t = 3 THEN a3 ELSE a8]
+AttrChoices == { AttrOf(2, 5, 4), AttrOf(4, NT, NN), AttrOf(1, 1, 1) }
+DefaultAttrs == AttrOf(2, 5, 4)
 
 (* every atom has the same shape; fields a kind does not use are 0 / {} *)
 Atom(k, tag, v, lo, hi, set) == [k |-> k, tag |-> tag, v |-> v, lo |-> lo, hi |-> hi, set |-> set]
@@ -47,14 +53,16 @@ EqAtoms == { Atom("equals", 0, x, 0, 0, {}) : x \in 1..NS } \cup { Atom("equals"
 RangeAtoms == { Atom("in_range", 8, 0, lo, hi, {}) : lo \in {1, 3, 4, 5, NN - 1}, hi \in {1, 4, 5, 6, NN} }
 SetAtoms == { Atom(kk, 0, 0, 0, 0, S) : kk \in {"in_set", "not_in_set"}, S \in { {2}, {1, 5}, {2, 3, 4} } }
             \cup { Atom(kk, 8, 0, 0, 0, S) : kk \in {"in_set", "not_in_set"}, S \in { {4}, {1, NN}, {2, 3, 5} } }
-Atoms == EqAtoms \cup RangeAtoms \cup SetAtoms
+TimeAtoms == { Atom("in_range", 3, 0, lo, hi, {}) : lo \in {1, 3, 4, 5}, hi \in {2, 5, 6, NT} }
+             \cup { Atom("equals", 3, x, 0, 0, {}) : x \in {1, 5, NT} } \cup { Atom(kk, 3, 0, 0, 0, S) : kk \in {"in_set", "not_in_set"}, S \in { {5}, {1, NT}, {4, 6} } }
+Atoms == EqAtoms \cup RangeAtoms \cup SetAtoms \cup TimeAtoms
 DefaultStmt == << Atom("equals", 0, 2, 0, 0, {}), Atom("in_range", 8, 0, 3, 6, {}) >>
 Stmts == { <<a>> : a \in Atoms } \cup { <<>> } \cup { <<a, b>> : a \in { x \in EqAtoms : x.tag = 0 }, b \in { x \in RangeAtoms : x.lo = 3 } } \cup {DefaultStmt}
 
 (* the statement with its last atom replaced by a neighbouring one (another bound / another set / another tag) *)
 Neighbour(a) ==
   CASE a.k = "equals" -> [a EXCEPT !.tag = IF a.tag = 0 THEN 3 ELSE 0]
-    [] a.k = "in_range" -> [a EXCEPT !.hi = IF a.hi < NN THEN a.hi + 1 ELSE a.hi - 1]
+    [] a.k = "in_range" -> [a EXCEPT !.hi = IF a.hi < (IF a.tag = 3 THEN NT ELSE NN) THEN a.hi + 1 ELSE a.hi - 1]
     [] OTHER -> [a EXCEPT !.set = a.set \cup {IF 3 \in a.set THEN 1 ELSE 3}]
 AlterLast(s) == IF s = <<>> THEN s ELSE [s EXCEPT ![Len(s)] = Neighbour(s[Len(s)])]
 Front(s) == IF s = <<>> THEN s ELSE SubSeq(s, 1, Len(s) - 1)
@@ -222,7 +230,7 @@ AuditParts == {"id", "request", "presentation"}
 
 AtomOut(a) == [a EXCEPT !.set = SortedSeq(a.set)]
 StmtOut(s) == [j \in 1..Len(s) |-> AtomOut(s[j])]
-Export == Done => PrintT(<<"REPLAY", ToJson([kind |-> kind, strvals |-> StrVals, numvals |-> NumVals, a0 |-> attrs[0], a8 |-> attrs[8],
+Export == Done => PrintT(<<"REPLAY", ToJson([kind |-> kind, strvals |-> StrVals, numvals |-> NumVals, timevals |-> TimeVals, a0 |-> attrs[0], a3 |-> attrs[3], a8 |-> attrs[8],
             stmt |-> StmtOut(stmt), sc |-> sc,
             req_given |-> ReqGiven, req_requested |-> ReqRequested, pres_given |-> PresGivenOf(sc.pres_given), pres_requested |-> PresRequested,
             issuers |-> IssuersOf(sc.issuers), sources |-> SourcesOf(sc.sources), req_stmt |-> StmtOut(ReqStmt(1)), second_req_stmt |-> StmtOut(ReqStmt(2)), second_stmt |-> StmtOut(SecondStmt), altered_stmt |-> StmtOut(AlterLast(stmt)),
